@@ -48,7 +48,7 @@ namespace vh {
 class ScriptedPacketIO : public muscle::PacketDataIO
 {
 public:
-   ScriptedPacketIO() : _hasNext(false) {}
+   ScriptedPacketIO() : _hasNext(false), _gpos(0) {}
    // what the next Read() returns (one datagram, truncated to the reader's buffer as recvfrom() does)
    void SetNextPacket(const std::string & bytes, const muscle::IPAddressAndPort & from) {_next = bytes; _from = from; _hasNext = true;}
    std::vector<std::string> & Written() {return _written;}
@@ -65,10 +65,15 @@ public:
       if (n > 0) memcpy(buffer, _next.data(), n);
       return muscle::io_status_t((int32)n);
    }
+   // the values the next Write() calls return: 0 = would block (nothing taken), a value below the packet size = short
+   // write (that many bytes go out as a datagram), anything else = the whole packet; script used up = whole packets
+   void SetWriteScript(const std::vector<uint32> & g) {_grants = g; _gpos = 0;}
    virtual muscle::io_status_t WriteTo(const void * buffer, uint32 size, const muscle::IPAddressAndPort &)
    {
-      _written.push_back(std::string((const char *)buffer, (size_t)size));
-      return muscle::io_status_t((int32)size);
+      uint32 n = size;
+      if (_gpos < _grants.size()) {const uint32 g = _grants[_gpos++]; if (g == 0) return muscle::io_status_t(); if (g < size) n = g;}
+      _written.push_back(std::string((const char *)buffer, (size_t)n));
+      return muscle::io_status_t((int32)n);
    }
    virtual void FlushOutput() {}
    virtual void Shutdown() {}
@@ -80,6 +85,7 @@ private:
    std::string _next;
    muscle::IPAddressAndPort _from, _dest;
    std::vector<std::string> _written;
+   std::vector<uint32> _grants; size_t _gpos;
 };
 }
 #endif
